@@ -38,6 +38,8 @@ pub mod facade;
 pub mod lexer;
 pub mod parser;
 pub mod query_api;
+#[cfg(nervusdb_verif)]
+pub mod verif_clock;
 
 pub use error::{Error, ResourceLimitKind, Result};
 pub use executor::{Row, Value, WriteableGraph};
